@@ -36,7 +36,9 @@ def r_obs_fields(rep, f):
         n = tast.find(b["body"], is_src)
         if n:
             readers[b["def"]] = n
-    allowed = lambda d: d == SOLVE_IVP or d.startswith("solve::options::") or d.startswith("<solve::options::") or d.startswith("python::")
+    # solve_ivp and the private helpers of its module (they are part of solve_ivp for this purpose and are scanned below)
+    helpers = [d for d in f.bodies if d.startswith("solve::solve_ivp::") and d != SOLVE_IVP and f.inlinable(d)]
+    allowed = lambda d: d == SOLVE_IVP or d in helpers or d.startswith("solve::options::") or d.startswith("<solve::options::") or d.startswith("python::")
     bad = [d for d in readers if not allowed(d)]
     key = "R-OBS-FIELDS:readers"
     if bad:
@@ -52,7 +54,14 @@ def r_obs_fields(rep, f):
     tl = tainted_locals(body, is_src)
     hits = []
     n_calls = 0
-    for c in tast.find(body, lambda z: z.get("k") in ("MethodCall", "Call")):
+    all_calls = list(tast.find(body, lambda z: z.get("k") in ("MethodCall", "Call")))
+    for hd in helpers:
+        hb = f.bodies[hd]["body"]
+        htl = tainted_locals(hb, is_src)
+        for c in tast.find(hb, lambda z: z.get("k") in ("MethodCall", "Call") and (z.get("def") or "").startswith("methods::")):
+            if any(tast.contains(a, lambda z: is_src(z) or (z.get("k") == "Path" and z.get("id") in htl)) for a in c["args"]) or "dense_output" in (c.get("def") or "").split("::")[-1]:
+                hits.append(c)
+    for c in all_calls:
         d = c.get("def") or ""
         if not d.startswith("methods::"):
             continue
@@ -69,6 +78,74 @@ def r_obs_fields(rep, f):
         rep.inconc("R-OBS-FIELDS", key, "only %d stepper builder/solve calls found in solve_ivp (expected >= 20)" % n_calls)
     else:
         rep.ok("R-OBS-FIELDS", key, "%d builder/solve calls on the six steppers, none receives t_eval/dense_output or a value derived from them" % n_calls)
+
+
+def r_teval_passthrough(rep, f):
+    """the requested times reach the output handler exactly as given: the t_eval argument of DefaultSolOut::new in solve_ivp
+    is Options::t_eval passed through clones / reborrows only (no sort, reverse, filter, arithmetic map, dedup): the handler
+    reports `t_eval[i]` verbatim and walks it with one forward cursor in the direction of integration"""
+    key = "R-TEVAL-PASSTHROUGH:solve_ivp"
+    b = f.bodies.get(SOLVE_IVP)
+    if b is None:
+        rep.inconc("R-TEVAL-PASSTHROUGH", key, "solve_ivp not found")
+        return
+    body = b["body"]
+    is_src = lambda z: z.get("k") == "Field" and (z.get("fdef") or "") == OPT + "t_eval"
+    news = tast.find(body, lambda z: z.get("k") == "Call" and (z.get("def") or "").startswith("solve::solout::DefaultSolOut") and (z.get("def") or "").endswith("::new"))
+    if len(news) != 1:
+        rep.inconc("R-TEVAL-PASSTHROUGH", key, "expected one DefaultSolOut::new in solve_ivp, found %d" % len(news))
+        return
+    PURE = ("clone", "as_ref", "as_deref", "to_vec", "to_owned", "cloned", "copied", "into", "as_slice", "as_mut", "map", "borrow")
+
+    def passthrough(e, params=(), depth=0):
+        """(is a pass-through of the source, why not)"""
+        if e is None or depth > 12:
+            return False, "too deep"
+        k = e.get("k")
+        if is_src(e):
+            return True, None
+        if k in ("AddrOf", "Cast", "DropTemps") or (k == "Unary" and e.get("op") == "Deref"):
+            return passthrough(e["e"], params, depth + 1)
+        if k == "Path" and e.get("res") == "local":
+            if e.get("id") in params:
+                return True, None
+            lets = tast.find(body, lambda z: z.get("k") == "Let" and z["pat"].get("id") == e.get("id") and z.get("init") is not None)
+            muts = tast.find(body, lambda z: z.get("k") == "MethodCall" and z.get("name") not in PURE + ("len", "is_empty", "iter", "first", "last", "is_some", "is_none")
+                             and tast.contains(z["recv"], lambda q: q.get("k") == "Path" and q.get("id") == e.get("id")) and "M" in ((z["recv"].get("adj") or "") + "".join(q.get("adj") or "" for q in tast.find(z["recv"], lambda q: q.get("k") == "Path"))))
+            if muts:
+                return False, "`%s` is called on it" % muts[0].get("name")
+            if len(lets) == 1:
+                return passthrough(lets[0]["init"], params, depth + 1)
+            return False, "local `%s` is not a single binding" % e.get("name")
+        if k == "MethodCall" and e.get("name") in PURE:
+            ok, why = passthrough(e["recv"], params, depth + 1)
+            if not ok:
+                return ok, why
+            if e["name"] == "map" and e["args"] and e["args"][0].get("k") == "Closure":
+                cl = e["args"][0]
+                pids = tuple(q["id"] for q in tast.find(cl["params"], lambda q: q.get("k") == "PBind"))
+                bodyc = cl["body"]
+                if bodyc.get("k") == "Block":
+                    if bodyc.get("stmts"):
+                        st = bodyc["stmts"][0]
+                        inner = st.get("e") if st.get("k") in ("ExprStmt", "Semi") else st
+                        return False, "the closure does more than hand the value on (`%s`)" % tast.render(inner)[:60]
+                    bodyc = bodyc.get("tail") or bodyc.get("expr")
+                return passthrough(bodyc, params + pids, depth + 1)
+            return True, None
+        if k == "Call" and (e.get("def") or "").endswith(("Some",)) and len(e.get("args", [])) == 1:
+            return passthrough(e["args"][0], params, depth + 1)
+        return False, "`%s` transforms the requested times" % tast.render(e)[:70]
+    cands = [a for a in news[0]["args"] if tast.contains(a, is_src) or (a.get("k") == "Path" and "Vec<f64>" in (a.get("ty") or "") and "Option" in (a.get("ty") or ""))]
+    if len(cands) != 1:
+        rep.inconc("R-TEVAL-PASSTHROUGH", key, "t_eval argument of DefaultSolOut::new not identified (%d candidates)" % len(cands))
+        return
+    ok, why = passthrough(cands[0])
+    if ok:
+        rep.ok("R-TEVAL-PASSTHROUGH", key, "DefaultSolOut::new receives Options::t_eval through clones / reborrows only")
+    else:
+        rep.violation("R-TEVAL-PASSTHROUGH", key, "the requested times are transformed on their way to the output handler (%s): they would no longer be reported verbatim and in the requested order "
+                      "(a decreasing t_eval of a backward run must stay decreasing)" % why, cands[0].get("sp"))
 
 
 DENY = ("std::time::", "std::thread::", "std::sync::", "std::env::", "std::fs::", "std::collections::hash", "std::collections::HashMap",
